@@ -183,6 +183,14 @@ Section B.
     - cbn in E. discriminate.
   Qed.
 
+  Lemma post_same_kind lvl f f0 up c' : same_kind f f0 -> post lvl f0 up c' -> post lvl f up c'.
+  Proof.
+    intros SK [X|(K & f' & SK' & [S|(L & NC & UP & k & S)])]; [now left| |].
+    - right. split; [exact K|]. exists f'. split; [eapply same_kind_trans; eassumption|now left].
+    - right. split; [exact K|]. exists f'. split; [eapply same_kind_trans; eassumption|]. right.
+      repeat split; auto. + now rewrite <- (same_kind_cdata _ _ SK). + now exists k.
+  Qed.
+
   Ltac fail_chain :=
     apply post_failed; repeat (first [assumption | apply error_never_cleared_step | apply error_never_cleared]).
 
@@ -276,6 +284,16 @@ Section B.
                 case is excluded by the convention that sub returns inr only with an error code *)
              exfalso. exact (sub_inr_nonzero doc SB).
         * cbn [andb].
+          (* since /repo c0648d3 the cached base64 text of a binary-flagged parent is flushed first: the parent frame
+             changes within its kind, then the old argument applies to the flushed context *)
+          destruct (flush_post c f up S) as [X|(E3 & K3 & _ & _ & f0 & SK0 & S3 & _)].
+          { unfold start_child. rewrite (failed_eqb _ X).
+            apply post_failed, error_never_cleared_step, error_never_cleared. exact X. }
+          apply (post_same_kind _ _ _ _ _ SK0).
+          rewrite <- K3. rewrite <- K3 in LENr, LENb, K0.
+          set (cf := flush_binary c) in *. clearbody cf.
+          clear S E K B SK0 K3. clear c f. rename cf into c, f0 into f, S3 into S, E3 into E.
+          unfold start_child. rewrite (ok_eqb _ E), S.
           destruct (WBXML_MAX_NESTING_DEPTH <=? N.of_nat (List.length (f :: up))).
           { apply post_failed, error_never_cleared_step, error_never_cleared. unfold failed. cbn. discriminate. }
           destruct (c_lang c) as [l|]; [|apply post_failed, error_never_cleared_step, error_never_cleared; unfold failed; cbn; discriminate].
@@ -363,7 +381,9 @@ Section B.
       destruct (search_table main None None (Some (str root))); [right; cbn; repeat split; auto; discriminate|left; unfold failed; cbn; discriminate]. }
     destruct H1 as [X|(E1 & S1 & R1 & K1 & L1)].
     { left. rewrite (failed_eqb _ X). now apply error_never_cleared_step, error_never_cleared. }
-    rewrite (ok_eqb _ E1), S1. rewrite andb_false_r. cbn [List.length N.of_nat].
+    rewrite (ok_eqb _ E1), S1. rewrite andb_false_r.
+    assert (FN : flush_binary c1 = c1) by (unfold flush_binary; now rewrite S1).
+    rewrite FN. unfold start_child. rewrite (ok_eqb _ E1), S1. cbn [List.length N.of_nat].
     change (WBXML_MAX_NESTING_DEPTH <=? 0) with false. cbv iota.
     destruct (c_lang c1) as [l|]; [|now elim L1].
     destruct (resolve_tag l root) as [tag page].
